@@ -219,6 +219,8 @@ def jobs(tier):
                 J.append(dict(harness=('c03', 'h_embed'), params=dict(N=N, mask=m)))
         J.append(dict(harness=('c03', 'h_rotation_map_acts_as_rotation'), params=dict(N=N)))
         if N <= 2:
+            for form in LAYOUTS[1:]:      # rotate_by and the rotation map agree on every storage layout of the operand
+                J.append(dict(harness=('c02', 'h_rotate_views'), params=dict(N=N, mask=None, form=form)))
             for how in ('rotate', 'masked_rotate', 'edit'):      # request the map, change it in place, request it again
                 J.append(dict(harness=('c02', 'h_rotation_map_history'), params=dict(N=N, how=how), timeout_s=300, cost=10))
         if N in (2, 3):
